@@ -388,8 +388,10 @@ def _worker_main(conn):
         impl = Check.impl_inproc
         oracle = Check.oracle_inproc
     chk = Inner()
-    from .. import srccov
+    from .. import srccov, noise
+    from ..core import quiet_call
     sent = set()
+    served = 0
     while True:
         try:
             d = conn.recv()
@@ -397,6 +399,8 @@ def _worker_main(conn):
             return
         if d is None:
             return
+        quiet_call(noise.between, served)       # the library runs in this process: so does the noise (core/noise)
+        served += 1
         try:
             payload = chk.encode_inproc(d)
         except Exception:
